@@ -10,7 +10,7 @@ import Mathlib.Algebra.Order.Ring.Abs
 /-!
 # Helper lemmas for C15 (line / plane / sphere / triangle primitives)
 
-* `len_intro`: a small tactic that names an opaque `Gen.V?.length tmin sqrt v` call and brings its
+* `len_intro`: a small tactic that names an opaque `Gen.V?.length tmin tmax sqrt v` call and brings its
   specification (`LenSpec`) into the context;
 * elementary facts about sums of squares and unit vectors over an ordered field;
 * the vector identities behind the closest-point, plane-transform and triangle proofs.
@@ -19,9 +19,9 @@ namespace ImathVerif.Geo
 open ImathVerif
 
 open Lean Elab Tactic Meta in
-/-- `len_intro hlen L hsq hnn`: find the first fully applied opaque length call `Gen.V?.length tmin sqrt v` in the
+/-- `len_intro hlen L hsq hnn`: find the first fully applied opaque length call `Gen.V?.length tmin tmax sqrt v` in the
 goal (or, failing that, in a hypothesis), replace it everywhere by a new variable `L`, and add its specification
-`hsq : L ^ 2 = v·v`, `hnn : 0 ≤ L` obtained from `hlen : LenSpec? (Gen.V?.length tmin sqrt)`. -/
+`hsq : L ^ 2 = v·v`, `hnn : 0 ≤ L` obtained from `hlen : LenSpec? (Gen.V?.length tmin tmax sqrt)`. -/
 elab "len_intro " hlen:ident L:ident hsq:ident hnn:ident : tactic => withMainContext do
   let g ← getMainGoal
   let mut ars : List (Name × Nat) := []
@@ -82,6 +82,16 @@ elab "fun_arg_intro " f:ident D:ident hD:ident : tactic => withMainContext do
       if found.isNone && !d.isImplementationDetail then
         found := (← instantiateMVars d.type).find? isApp
   let some e := found | throwError "fun_arg_intro: no application of the function found"
+  let x ← Term.exprToSyntax e.appArg!
+  evalTactic (← `(tactic| generalize $hD : $x = $D at *))
+
+open Lean Elab Tactic Meta in
+/-- `fun_arg_intro_at f D hD h`: like `fun_arg_intro`, but the application `f X` is looked for in the hypothesis `h` only -/
+elab "fun_arg_intro_at " f:ident D:ident hD:ident h:ident : tactic => withMainContext do
+  let fe ← Term.elabTerm f none
+  let isApp (e : Expr) : Bool := !e.hasLooseBVars && e.isApp && e.appFn! == fe
+  let d ← getLocalDeclFromUserName h.getId
+  let some e := (← instantiateMVars d.type).find? isApp | throwError "fun_arg_intro_at: no application of the function found"
   let x ← Term.exprToSyntax e.appArg!
   evalTactic (← `(tactic| generalize $hD : $x = $D at *))
 
@@ -302,6 +312,17 @@ theorem cplParam_perp (l1 l2 : Line3 α) (hu1 : dot l1.dir l1.dir = 1) (hu2 : do
   · linear_combination (-(((l1.pos.x + s * l1.dir.x - l2.pos.x) * l2.dir.x + (l1.pos.y + s * l1.dir.y - l2.pos.y) * l2.dir.y)
       + (l1.pos.z + s * l1.dir.z - l2.pos.z) * l2.dir.z)) * hu2
 
+/-- numerator and denominator of that parameter as the code computes them (`cplParam = cplNum / cplDen`) -/
+def cplNum (l1 l2 : Line3 α) : α := dot l1.dir (sub l1.pos l2.pos) - dot l2.dir l1.dir * dot l2.dir (sub l1.pos l2.pos)
+def cplDen (l1 l2 : Line3 α) : α := dot l2.dir l1.dir * dot l2.dir l1.dir - 1
+omit [LinearOrder α] [IsStrictOrderedRing α] in
+theorem cplParam_eq (l1 l2 : Line3 α) : cplParam l1 l2 = cplNum l1 l2 / cplDen l1 l2 := rfl
+
+/-! ## `Sphere3::intersectT`: the coefficients of the quadratic `t² + B t + C` the code solves (it hard-wires `A = 1`) -/
+def sphB (s : Sphere3 α) (l : Line3 α) : α := 2 * dot l.dir (sub l.pos s.center)
+def sphC (s : Sphere3 α) (l : Line3 α) : α := dot (sub l.pos s.center) (sub l.pos s.center) - s.radius * s.radius
+def sphD (s : Sphere3 α) (l : Line3 α) : α := sphB s l * sphB s l - 4 * sphC s l
+
 /-! ## `Plane3 * Matrix44` -/
 
 /-- the (un-normalised) normal of `plane * M` as the code builds it from the three points
@@ -372,6 +393,51 @@ theorem bary_identity (p v0 v1 v2 : V3 α) :
       = smul (- dot (triN v0 v1 v2) (sub p v0)) (triN v0 v1 v2) := by
   simp only [numA, triN, dot, cross, sub, add, smul, V3.mk.injEq]
   refine ⟨?_, ?_, ?_⟩ <;> ring
+
+/-! ## `Plane3 * Matrix44` for projective matrices: the homogeneous images of four points and the 4×4 determinant -/
+
+/-- 4×4 determinant with rows `(a, aw)`, `(b, bw)`, `(c, cw)`, `(e, ew)` -/
+def det4rows (a : V3 α) (aw : α) (b : V3 α) (bw : α) (c : V3 α) (cw : α) (e : V3 α) (ew : α) : α :=
+  det4 ⟨a.x, a.y, a.z, aw, b.x, b.y, b.z, bw, c.x, c.y, c.z, cw, e.x, e.y, e.z, ew⟩
+
+omit [LinearOrder α] [IsStrictOrderedRing α] in
+/-- the triple product of three difference vectors of de-homogenised points is the determinant of the homogeneous rows -/
+theorem triple_homog (a b c e : V3 α) (aw bw cw ew : α) (ha : aw ≠ 0) (hb : bw ≠ 0) (hc : cw ≠ 0) (he : ew ≠ 0) :
+    dot (cross (sub (divS b bw) (divS a aw)) (sub (divS c cw) (divS a aw))) (sub (divS e ew) (divS a aw)) * (ew * aw * bw * cw)
+      = det4rows e ew a aw b bw c cw := by
+  simp only [dot, cross, sub, divS, det4rows, det4]
+  field_simp
+  ring
+
+omit [LinearOrder α] [IsStrictOrderedRing α] in
+/-- multiplicativity of the determinant for the rows `(p, 1)·M` -/
+theorem det4rows_mul (e a b c : V3 α) (m : M44 α) :
+    det4rows (numM44 e m) (wOf e m) (numM44 a m) (wOf a m) (numM44 b m) (wOf b m) (numM44 c m) (wOf c m)
+      = det4rows e 1 a 1 b 1 c 1 * det4 m := by
+  simp only [det4rows, det4, numM44, wOf]
+  ring
+
+omit [LinearOrder α] [IsStrictOrderedRing α] in
+theorem det4rows_affine (e a b c : V3 α) :
+    det4rows e 1 a 1 b 1 c 1 = dot (cross (sub b a) (sub c a)) (sub e a) := by
+  simp only [det4rows, det4, dot, cross, sub]
+  ring
+
+omit [LinearOrder α] [IsStrictOrderedRing α] in
+theorem mulM44_eq_divS (p : V3 α) (m : M44 α) : mulM44 p m = divS (numM44 p m) (wOf p m) := rfl
+
+omit [LinearOrder α] [IsStrictOrderedRing α] in
+/-- the projective generalisation of `plane_xform_core`: for ANY 4×4 matrix (no affinity, no regularity), as long as the
+homogeneous `w` of the four points involved does not vanish -/
+theorem plane_xform_core_proj (n : V3 α) (d : α) (m : M44 α) (D v : V3 α)
+    (h0 : wOf (smul d n) m ≠ 0) (h1 : wOf (add (smul d n) (cross D n)) m ≠ 0) (h2 : wOf (add (smul d n) D) m ≠ 0) (hv : wOf v m ≠ 0) :
+    dot (xformNormal n d m D) (sub (mulM44 v m) (mulM44 (smul d n) m))
+      * (wOf v m * wOf (smul d n) m * wOf (add (smul d n) (cross D n)) m * wOf (add (smul d n) D) m)
+      = det4 m * (dot D D * dot n (sub v (smul d n)) - dot D n * dot D (sub v (smul d n))) := by
+  unfold xformNormal
+  rw [mulM44_eq_divS, mulM44_eq_divS, mulM44_eq_divS, mulM44_eq_divS, triple_homog _ _ _ _ _ _ _ _ h0 h1 h2 hv, det4rows_mul, det4rows_affine]
+  simp only [dot, cross, sub, add, smul]
+  ring
 
 /-! the quantities the code computes, by name (`len` is the length function) -/
 
